@@ -688,6 +688,12 @@ def _collect_events(p, f):
                 g = c
                 break
         out.append((g, ("alloca", var)))
+        # a temporary that only holds a copy of another variable's value (an inlined helper's parameter): the value's own variable too
+        sts = [s for s in f.all_insts() if s.op == "store" and resolve_addr(f, s.ops[1]).root == ("alloca", var) and not resolve_addr(f, s.ops[1]).steps]
+        if len(sts) == 1 and f.inst_dominates(sts[0], i):
+            vk = ("arg", strip_casts(f, sts[0].ops[0])["v"]) if strip_casts(f, sts[0].ops[0]).get("k") == "a" else _var_of(f, sts[0].ops[0])
+            if vk is not None:
+                out.append((g, vk))
     for c_ in f.calls():
         h = p.m.functions.get(c_.callee) if c_.callee else None
         if h is None or h.decl or h.name == f.name or not c_.args:
